@@ -529,6 +529,11 @@ func (s *Server) Prepare(conf *ServerConfig) (err error) {
 
 	s.dnsProxy = dnsProxy
 
+	// The new proxy numbers its requests from the beginning again, so the
+	// ClientIDs remembered under the request numbers of the previous proxy must
+	// not be found by the requests of this one.
+	s.clientIDCache.Clear()
+
 	s.setupAddrProc()
 
 	s.registerHandlers()
